@@ -46,6 +46,8 @@ type workerCfg struct {
 	Scratch    string
 	Verif      string
 	Known      []evid.Finding
+	RaceBin    string
+	RaceBudget time.Duration
 }
 
 type meta struct {
@@ -83,13 +85,15 @@ func main() {
 	budget := fs.Duration("budget", 0, "time budget of the seeded-search part (0 = tier default)")
 	file := fs.String("file", "", "replay file")
 	noEvidence := fs.Bool("no-evidence", false, "do not write the evidence file (development sweeps)")
+	raceBin := fs.String("racebin", "", "simcheck built with -race against the un-instrumented copy (C17 race tier)")
+	raceBudget := fs.Duration("race-budget", 0, "time budget of the race tier (0 = tier default)")
 	fs.Parse(os.Args[2:])
 
 	known, err := evid.LoadFindings(filepath.Join(*verif, "known_findings.txt"))
 	if err != nil {
 		die2("%v", err)
 	}
-	cfg := workerCfg{Prop: *prop, Tier: *tier, Seed: *seed, W: *w, NW: *nw, Budget: *budget, Repo: *repo, Scratch: *scratch, Verif: *verif, Known: known}
+	cfg := workerCfg{Prop: *prop, Tier: *tier, Seed: *seed, W: *w, NW: *nw, Budget: *budget, Repo: *repo, Scratch: *scratch, Verif: *verif, Known: known, RaceBin: *raceBin, RaceBudget: *raceBudget}
 
 	switch cmd {
 	case "worker":
@@ -114,7 +118,13 @@ func main() {
 			die2("no engine for %q", in.Property)
 		}
 		cfg.Prop = in.Property
-		v, err := eng.Exec(in.Property, in.Case, cfg)
+		var v *evid.Violation
+		var err error
+		if isRaceCase(in.Case) {
+			v, err = callsim.RaceExec(in.Case, cfg.Repo)
+		} else {
+			v, err = eng.Exec(in.Property, in.Case, cfg)
+		}
 		if err != nil {
 			die2("exec: %v", err)
 		}
@@ -124,6 +134,15 @@ func main() {
 			res["what"] = v.What
 		}
 		json.NewEncoder(os.Stdout).Encode(res)
+	case "raceworker":
+		st := callsim.RaceWorker(callsim.Config{Prop: "C17", Tier: *tier, Seed: *seed, W: *w, NW: *nw, Deadline: time.Now().Add(*budget), RepoDir: *repo, Known: known})
+		if err := st.WriteWorker(*out); err != nil {
+			die2("%v", err)
+		}
+	case "racerun":
+		nrep := 0
+		worlds, calls := callsim.RaceRun(*seed, int64(*w), int64(*nw), *repo, func(l string) { nrep++; fmt.Println("VALUE-DIFFERENCE:", l) })
+		fmt.Printf("racerun: %d worlds, %d calls, %d value differences\n", worlds, calls, nrep)
 	case "refcall":
 		if err := callsim.RefCall(os.Stdin, os.Stdout); err != nil {
 			die2("refcall: %v", err)
@@ -145,7 +164,17 @@ func main() {
 func execFresh(prop string, raw json.RawMessage, cfg workerCfg) (sig, what string, err error) {
 	self, _ := os.Executable()
 	in, _ := json.Marshal(map[string]interface{}{"property": prop, "case": raw})
-	cmd := exec.Command(self, "exec", "-verif", cfg.Verif, "-repo", cfg.Repo, "-scratch", cfg.Scratch)
+	repoDir := cfg.Repo
+	var env []string
+	if isRaceCase(raw) {
+		if cfg.RaceBin == "" {
+			return "", "", fmt.Errorf("race-tier case needs -racebin")
+		}
+		self = cfg.RaceBin
+		env = append(os.Environ(), fmt.Sprintf("GORACE=log_path=%s halt_on_error=0 exitcode=0", filepath.Join(cfg.Scratch, fmt.Sprintf("race-exec-%d", time.Now().UnixNano()))))
+	}
+	cmd := exec.Command(self, "exec", "-verif", cfg.Verif, "-repo", repoDir, "-scratch", cfg.Scratch)
+	cmd.Env = env
 	cmd.Stdin = bytes.NewReader(in)
 	var so, se bytes.Buffer
 	cmd.Stdout = &so
@@ -160,7 +189,7 @@ func execFresh(prop string, raw json.RawMessage, cfg workerCfg) (sig, what strin
 		if err != nil {
 			return "", "", fmt.Errorf("exec failed: %v: %s", err, tail(se.String(), 2000))
 		}
-	case <-time.After(120 * time.Second):
+	case <-time.After(300 * time.Second):
 		cmd.Process.Kill()
 		return "", "", fmt.Errorf("exec watchdog expired")
 	}
@@ -286,6 +315,49 @@ func run(cfg workerCfg, noEvidence bool) int {
 		total.Merge(st)
 	}
 	timer.Stop()
+	if cfg.Prop == "C17" && cfg.RaceBin != "" {
+		// auxiliary race tier: the same seeded worlds with free-running goroutines in a -race build
+		rb := cfg.RaceBudget
+		if rb == 0 {
+			rb = 12 * time.Second
+			if cfg.Tier == "thorough" {
+				rb = 2 * time.Minute
+			}
+		}
+		var rprocs []proc
+		for w := 0; w < cfg.NW; w++ {
+			pre := filepath.Join(cfg.Scratch, fmt.Sprintf("raceworker-%d", w))
+			cmd := exec.Command(cfg.RaceBin, "raceworker", "-seed", fmt.Sprint(cfg.Seed), "-tier", cfg.Tier, "-verif", cfg.Verif, "-repo", cfg.Repo,
+				"-scratch", cfg.Scratch, "-workers", fmt.Sprint(cfg.NW), "-w", fmt.Sprint(w), "-out", pre, "-budget", rb.String())
+			se := &bytes.Buffer{}
+			cmd.Stderr, cmd.Stdout = se, se
+			cmd.Env = append(os.Environ(), "GOMAXPROCS=4", fmt.Sprintf("GORACE=log_path=%s halt_on_error=0 exitcode=0", filepath.Join(cfg.Scratch, fmt.Sprintf("racelog-%d", w))))
+			if err := cmd.Start(); err != nil {
+				die2("start race worker: %v", err)
+			}
+			rprocs = append(rprocs, proc{cmd, se, pre})
+		}
+		rtimer := time.AfterFunc(rb*3+5*time.Minute, func() {
+			for _, p := range rprocs {
+				p.cmd.Process.Kill()
+			}
+		})
+		for i, p := range rprocs {
+			if err := p.cmd.Wait(); err != nil {
+				fmt.Fprintf(os.Stderr, "HARNESS-TROUBLE: race worker %d: %v\n%s\n", i, err, tail(p.se.String(), 3000))
+				trouble = true
+				continue
+			}
+			st, err := evid.ReadWorker(p.pre)
+			if err != nil {
+				fmt.Fprintf(os.Stderr, "HARNESS-TROUBLE: race worker %d output: %v\n", i, err)
+				trouble = true
+				continue
+			}
+			total.Merge(st)
+		}
+		rtimer.Stop()
+	}
 	for _, t := range total.Trouble {
 		fmt.Fprintf(os.Stderr, "HARNESS-TROUBLE: %s\n", t)
 		trouble = true
@@ -457,4 +529,14 @@ func withWarm(raw json.RawMessage, n int) json.RawMessage {
 		return nil
 	}
 	return out
+}
+
+// isRaceCase: cases of the auxiliary race tier carry a "race" object instead of a world.
+func isRaceCase(raw json.RawMessage) bool {
+	var m map[string]json.RawMessage
+	if err := json.Unmarshal(raw, &m); err != nil {
+		return false
+	}
+	_, ok := m["race"]
+	return ok
 }
